@@ -12,27 +12,27 @@ CLAIMED = {
    "trusted base: sim/refmodel (self-tested on every run), numpy/scipy; tolerance comparisons carry 1e-3 relative slack plus a rounding allowance (incl. the amplification by extrapolation coefficients observed at the seam)"),
  "C02": ("exploration", "5 / C02",
    TECH + "histories (budget crashes, faulty extrapolations, changed alpha) ending in a fault-free quiescent solve; oracle = objective within a tolerance-proportional margin of an independent witness optimum, plus bounded liveness",
-   "Every simulated history is driven to quiescence and the converged result compared with a witness point computed by the reference model (any point with a lower objective refutes optimality, so the witness need not be exact); convex families only. The input-space breadth is swarm sampling.",
-   "witness optimum from the reference model's proximal-gradient solver (cross-checked against scikit-learn / celer in the self-test); margin kappa * tol * ||w - z||_1 with kappa = 1 for subdifferential criteria"),
+   "Every simulated history is driven to quiescence and the converged result compared with a witness point computed by the reference model (any point with a lower objective refutes optimality, so the witness need not be exact); convex families only, including PDCD_WS quantile regression against the LP optimum (scipy HiGHS) and, in one run out of six, estimator-level histories. The input-space breadth is swarm sampling.",
+   "witness optimum from the reference model's proximal-gradient solver (cross-checked against scikit-learn / celer in the self-test); margin kappa * tol * ||w - z||_1 with kappa = 1 for subdifferential criteria; a derived primal-dual bound for PDCD_WS (sim/runner.py:pd_margin)"),
  "C03": ("fault_enumeration", "5 / C03",
    "deterministic simulation with fault injection: crash-point enumeration (every budget of a grid is one stopping point of the same deterministic trajectory) under seeded schedules, start points and extrapolation faults; oracle = reference objective along prefix-ordered chains",
    "For each sampled run every stopping point of a budget grid (outer iterations x inner epochs, concentrated on the extrapolation and inner-test periods) is executed; the reference objective must not exceed the start and must be non-increasing along chains of prefix-related budgets. Runs, knobs and faults are sampled; grids are enumerated.",
    "prefix determinism of the solvers (the hidden RNG is re-seeded per grid by the simulator); reference objective; slack 1e-9 relative + rounding allowance"),
  "C04": ("fault_enumeration", "5 / C04",
    "deterministic simulation with fault injection: crash-point enumeration over budgets for constrained compositions, with extrapolation faults pushing candidates out of the feasible set; oracle = exact feasibility and finiteness of every returned vector",
-   "Every stopping point of the budget grid is checked for exact feasibility (>= 0, or inside [0, C]) and finiteness, converged or not; budgets ending right after an extrapolation are part of every grid.",
-   "exact comparison, no tolerance; constrained compositions of the catalogue only"),
+   "Every stopping point of the budget grid is checked for exact feasibility (>= 0, or inside [0, C]) and finiteness, converged or not; budgets ending right after an extrapolation are part of every grid; a third of the plans tighten the constraint (smaller box, positivity switched on) between a solve and the grid, which is then restarted from the surviving, now infeasible, buffers (solver and estimator level).",
+   "exact comparison, no tolerance; constrained compositions of the catalogue only; a call that performed no iteration under the fixed-point criterion returns the caller's own vector and is judged only up to tol (DESIGN 8.17)"),
  "C05": ("exploration", "5 / C05",
-   TECH + "histories of solves, hyper-parameter changes (in place and by new objects), paths in any order, storage switches, budget crashes and restarts from surviving buffers; oracles = per-operation certificate, buffer = X w + b, optimum at quiescence, liveness",
+   TECH + "histories of solves, hyper-parameter changes (in place and by new objects), paths in any order, storage switches, budget crashes, solves killed at a seam event (F-INTERRUPT) and restarts from surviving buffers; oracles = per-operation certificate, buffer = X w + b, optimum at quiescence, bounded liveness (absolute and warm-versus-cold)",
    "History machine at solver level: after every operation the certificate for that operation's problem and the consistency of the caller-held model-fit buffer are checked against the reference model; histories end with a quiescent solve compared with the witness optimum.",
-   "reference model; buffer allowance eps * scale * (1e3 + 10 sqrt(#updates)) plus the extrapolation amplification observed at the seam"),
+   "reference model; buffer allowance eps * scale * (1e4 + 10 sqrt(#updates) + 0.25 #updates) plus the extrapolation amplification observed at the seam"),
  "C16": ("exploration", "5 / C16",
    TECH + "routes to the critical strength (cold, warm from a converged fit at small alpha, paths crossing alpha_max, crash + restart); oracle = reference alpha_max (unpenalised part optimised) -> exact zeros above / non-zero below",
-   "alpha is placed at alpha_max * {1+4e-9, 1.001 .. 10, 0.9 .. 0.999} with the reference model's alpha_max; exact zeros are demanded where they are implied (gap dominating the tolerance under the subdifferential criterion, or cold start with nothing unpenalised), non-zero coefficients below.",
+   "alpha is placed at alpha_max * {1+4e-9, 1.001 .. 10, 0.9 .. 0.999} with the reference model's alpha_max; exact zeros are demanded where they are implied (gap dominating the tolerance under the subdifferential criterion, or cold start with nothing unpenalised, or cold start on exactly centred columns - also for the non-convex MCP family at any gamma), non-zero coefficients below; the library's own alpha_max helpers (five penalties, _alpha_max_group_lasso) must return the reference critical value.",
    "reference alpha_max (null model fitted by least squares / BFGS); convex penalties for the gap rule"),
  "C17": ("fault_enumeration", "5 / C17",
    "deterministic simulation with fault injection: crash-point enumeration over budgets for all nine solvers with iteration counting at the seams; oracles = history length = outer iterations observed, last entry = reference objective of the returned point, prefix consistency across budgets",
-   "Every stopping point of the budget grid: len(obj_out) equals the number of working-set selections (or Gram epochs) counted at the seam, the last entry equals the reference objective of the returned point, and the history under budget K extends the history under budget k < K.",
+   "Every stopping point of the budget grid: len(obj_out) equals the number of working-set selections (or Gram epochs) counted at the seam, the last entry equals the reference objective of the returned point, the history under budget K extends the history under budget k < K, and on a tolerance stop the returned stopping value may not understate the recomputed violation (subdifferential and fixed-point criteria) by more than a factor 2.",
    "seams (numpy.argpartition / kernel wrappers) only count; reference objective with 1e-7 relative slack"),
 }
 
@@ -43,27 +43,27 @@ CLAIMED.update({
    "dense SVD (numpy) as truth; lower bound carries a 5% slack; by-product part is evaluation, not simulation"),
  "C10": ("exploration", "5 / C10",
    TECH + "paired replicas of one estimator-level fit that differ only in the container of X (dense F / C / strided view / CSC / CSR / list / float32); oracle = outcome class and converged objective within the convexity margin",
-   "The same seeded estimator and data are fitted on two storage replicas; both must solve (or the unsupported one be refused), each converged result must be stationary for the documented objective, and on convex problems the two objectives must agree within tol * ||w_a - w_b||_1 (single precision margin for float32).",
+   "The same seeded estimator and data are fitted on two storage replicas; both must solve (or the unsupported one be refused), each converged result must be stationary for the documented objective, and on convex problems the two objectives must agree within tol * ||w_a - w_b||_1 (single precision margin for float32); converged non-convex replicas must reach the same stationary point; some replica pairs use structured designs with exactly zero column sums.",
    "reference objective; trajectories are never compared step by step"),
  "C11": ("exploration", "5 / C11",
    TECH + "estimator-level histories (construct with drawn arguments, fit, set_params, refit with and without warm start, path); oracle = certificate and witness optimum for the objective written in the estimator's documentation, with the current get_params()",
-   "All eleven documented estimators plus GeneralizedLinearEstimator compositions; after every fit that reports convergence the coefficients must be stationary (optimal when convex) for the documented objective built by the reference model from the constructor arguments; LinearSVC primal image; group formats through an independent reading of the documented group specification.",
+   "All eleven documented estimators plus GeneralizedLinearEstimator compositions; after every fit that reports convergence the coefficients must be stationary (optimal when convex) for the documented objective built by the reference model from the constructor arguments; LinearSVC primal image, also through GeneralizedLinearEstimator with AndersonCD and FISTA; group formats through an independent reading of the documented group specification.",
    "sklearn's removed BaseEstimator._validate_data is stubbed (two check_array calls); reference model"),
  "C13": ("exploration", "5 / C13",
    "deterministic simulation with fault injection: supervised execution (worker death, hang and wall-cap detection) of the solver x datafit x penalty x storage x intercept x strategy matrix under three scheduler draws per cell; stratified enumeration of the cells, seeded data and knobs",
-   "19152 cells x 3 scheduler draws (default knobs; tiny budget; warm start with p0 = 1). Outcome must be an explanatory refusal or a finite solve meeting the certificate; typing / index / arithmetic errors, non-finite values, hangs and worker deaths are violations keyed by cell. The quick tier visits a seed-rotated part of the compiled matrix and a twin pass; the thorough tier the whole matrix.",
+   "19152 cells x 3 scheduler draws (default knobs; tiny budget; warm start with p0 = 1). Outcome must be an explanatory refusal or a finite solve meeting the certificate; typing / index / arithmetic errors, non-finite values, hangs and worker deaths are violations keyed by cell. Cells solved by FISTA / PDCD_WS (whose stopping value is no certificate of the returned point) are held to the witness-optimum margin instead. The quick tier visits a seed-rotated part of the compiled matrix and a twin pass; the thorough tier the whole matrix.",
    "refusal strata are validated on the uncompiled objects first (validation only inspects attribute names); compiled engine for typing errors"),
  "C18": ("exploration", "5 / C18",
-   TECH + "histories of 2-10 fits / paths over several datasets and estimators sharing datafit / penalty classes, jitclass-cache clearing / pollution, float32 and float64 interleaved; oracles = byte hashes of every input before / after, bitwise equality of the last fit with the same fit executed alone in a pristine forked interpreter (RNG seam pinned)",
-   "State that can leak between fits (lru_cache of jitclasses, compiled instances rewritten by path(), estimator attributes, hidden RNG) is exercised by seeded histories; the final fit is compared bit for bit with a pristine-process fit; inputs are hashed around every operation; refits must succeed.",
+   TECH + "histories of 2-10 fits / paths over several datasets (often of the same shape) and estimators sharing datafit / penalty classes, user-held solver objects reused after solver.path(), fits killed part-way at a seam event (F-INTERRUPT), jitclass-cache clearing / pollution, float32 and float64 interleaved; oracles = byte hashes of every input before / after, bitwise equality of the last fit with the same fit executed alone in a pristine forked interpreter (RNG seam pinned)",
+   "State that can leak between fits (lru_cache of jitclasses, compiled instances rewritten by path(), estimator attributes, hidden RNG) is exercised by seeded histories; the final fit is compared bit for bit with a pristine-process fit; inputs and the scalar hyper-parameters of user-held solver objects are snapshotted around every operation; refits must succeed, also after an interrupted fit.",
    "bitwise equality is only demanded within one engine with the RNG seam pinned; the pristine state is a fork taken before the worker compiled or fitted anything"),
  "C19": ("exploration", "5 / C19",
-   TECH + "degenerate structure injected as a static data fault (zero column / group, duplicated or constant column, zero or constant target, one feature, n < p, 1e+-6 column scale) into seeded solves, warm starts and restarts of every catalogue family; oracles = finite, certificate, exact zero on null columns, no crash, no hang",
-   "Every run carries a degenerate-data fault; the degenerate coordinate's fate depends on the schedule (working set, warm-start mass, extrapolation). Hangs inside compiled kernels are detected by an external wall cap and reported as violations.",
+   TECH + "degenerate structure injected as a static data fault (zero column / group, duplicated or constant column, zero or constant target, one feature, n < p, 1e+-6 and 1e+-9 column scale with the regularisation chosen relative to the remaining columns) into seeded solves, warm starts and restarts of every catalogue family; oracles = finite, certificate, exact zero on null columns, no crash, no hang",
+   "Every run carries a degenerate-data fault; the degenerate coordinate's fate depends on the schedule (working set, warm-start mass, extrapolation). Hangs inside compiled kernels are detected by an external wall cap and reported as violations; coordinate-descent solvers must converge within a bounded budget under column scaling and from warm starts that put mass on the degenerate column (compared with a cold start of the same problem).",
    "zero coefficients on null columns are demanded where leaving them non-zero breaks stationarity by more than tol"),
  "C20": ("exploration", "5 / C20",
    "deterministic simulation with fault injection: the same seeded plans replayed by the compiled engine, by the compiled engine with NUMBA_BOUNDSCHECK=1 and (natively bounds-checked) by the interpreted twin; oracle = no IndexError / broadcasting error, same outcome class, same converged objective",
-   "Shapes that move the last feature / group / sample to array ends (intercept on / off, working set = all features, one group, empty or full last CSC column, mis-sized start vectors that must be refused). Trajectories are not compared bit for bit (see DESIGN section 8): a bounds-checked build rounds differently and the solvers branch on rounding-level quantities.",
+   "Shapes that move the last feature / group / sample to array ends (intercept on / off, working set = all features, one group, empty or full last CSC column, mis-sized start vectors that must be refused); the twin phase visits every catalogue entry in every batch. Trajectories are not compared bit for bit (see DESIGN section 8): a bounds-checked build rounds differently and the solvers branch on rounding-level quantities.",
    "numba's NUMBA_BOUNDSCHECK switch (not a source hook); negative-index wrap-around is not visible to bounds checking"),
 })
 
